@@ -22,8 +22,8 @@ async fn open_epoch(s: &mut Sim, g: &mut G) -> u64 {
 }
 
 async fn run(mut s: Sim, mut rng: Rng, _len: usize) -> Sim {
-    let which = ((s.n >> 32) - 1) % 12;   // history id: consecutive histories run the scripts in turn
-    if which >= 7 { return unconfigured(s, rng, which).await; }
+    let which = ((s.n >> 32) - 1) % 14;   // history id: consecutive histories run the scripts in turn
+    if (7..12).contains(&which) { return unconfigured(s, rng, which).await; }
     let mut g = bootstrap_with(&mut s, &mut rng, None).await;
     // make the configuration deterministic where the scripts depend on it
     for st in [RdSetting::DebtAccountant(g.debt_acc.clone()), RdSetting::RewardsAccountant(g.rew_acc.clone()), RdSetting::ContributorManager(g.cmgr.clone()),
@@ -163,6 +163,77 @@ async fn run(mut s: Sim, mut rng: Rng, _len: usize) -> Sim {
             for dt in [131_071u64, 172_799, 172_800] {
                 s.op(Op::SetClock(t0 + dt)).await;
                 let ix = s.rd_initialize_distribution(&g.debt_acc, &g.payer, 1); s.op(tx(vec![ix])).await;
+            }
+        }
+        12 => { // C12 / C08 / C16: the null-root matrix (debt, written-off, direct 2Z, root), finalisation before debt is final,
+                // a zero-debt sweep while paused, recipient tables whose share total wraps 16 bits
+            let ja = K::Ata(b(&K::RdJournal), b(&K::Mint));
+            let mut eps = vec![];
+            for prepaid in [0u64, 5_000, 0, 0, 7_000, 9_000, 0, 0] {
+                if prepaid > 0 { s.op(Op::MintTo(ja.clone(), prepaid)).await; }
+                eps.push(open_epoch(&mut s, &mut g).await);
+            }
+            let poor = g.nodes[6].clone();
+            // (debt leaves, write them off?, root posted?)
+            let plan: Vec<(Vec<Leaf>, bool, bool)> = vec![
+                (vec![], false, false),                                                            // 0: nothing at all, null root: accepted
+                (vec![], false, false),                                                            // 1: direct 2Z, null root: refused
+                (vec![Leaf::Debt { node: g.nodes[0].clone(), amount: 700 }], false, false),        // 2: collectible debt, null root: refused
+                (vec![Leaf::Debt { node: poor.clone(), amount: 700 }], true, false),               // 3: debt fully written off, null root: accepted
+                (vec![Leaf::Debt { node: poor.clone(), amount: 700 }], true, false),               // 4: written off but direct 2Z held: refused
+                (vec![], false, true),                                                             // 5: direct 2Z with a posted root: accepted
+            ];
+            // 6: rewards finalisation attempted before debt is finalised (nothing posted yet): refused, then debt can still be posted
+            let ix = s.rd_finalize_rewards(&g.payer, eps[6]); s.op(tx(vec![ix])).await;
+            for (i, (leaves, wo, root)) in plan.iter().enumerate() {
+                let e = eps[i];
+                let total: u64 = leaves.iter().map(|l| if let Leaf::Debt { amount, .. } = l { *amount } else { 0 }).sum();
+                let t = s.def_tree(0, leaves.clone());
+                let ix = s.rd_configure_debt(&g.debt_acc, e, leaves.len() as u32, total, t.root); s.op(tx(vec![ix])).await;
+                let ix = s.rd_finalize_debt(&g.debt_acc, e, &g.payer); s.op(tx(vec![ix])).await;
+                if *wo { let ix = s.rd_enable_write_off(e, &g.payer); s.op(tx(vec![ix])).await;
+                         let p = s.proof(&t, 0).unwrap(); let ix = s.rd_write_off(&g.debt_acc, e, &poor, e, 700, &p); s.op(tx(vec![ix])).await; }
+                if *root { let rt = s.def_tree(1, vec![Leaf::Reward { contributor: g.svcs[0].clone(), unit_share: 1_000_000_000, packed: 0 }]);
+                           let ix = s.rd_configure_rewards(&g.rew_acc, e, 1, rt.root); s.op(tx(vec![ix])).await; }
+                let ix = s.rd_finalize_rewards(&g.payer, e); s.op(tx(vec![ix])).await;
+            }
+            // zero-debt sweep while paused: refused; after unpausing the same sweep succeeds
+            let p1 = s.rd_configure(&g.admin, RdSetting::Paused(true)); s.op(tx(vec![p1])).await;
+            let ix = s.rd_sweep(eps[0], &K::SwapMock, &g.fills); s.op(tx(vec![ix.clone()])).await;
+            let p0 = s.rd_configure(&g.admin, RdSetting::Paused(false)); s.op(tx(vec![p0])).await;
+            s.op(tx(vec![ix])).await;
+            // share totals that wrap a u16 (75 536 = 65 536 + 10 000)
+            let mgr = g.mgrs[1].clone(); let svc = g.svcs[1].clone();
+            for rec in [vec![10_000u16, 10_000, 10_000, 10_000, 10_000, 10_000, 10_000, 5_536], vec![9_442u16; 8], vec![10_000u16, 10_000, 10_000, 10_000, 10_000, 10_000, 5_536]] {
+                let l: Vec<(K, u16)> = rec.iter().enumerate().map(|(j, x)| (K::User(320 + j as u64), *x)).collect();
+                let ix = s.rd_configure_contributor_recipients(&mgr, &svc, &l); s.op(tx(vec![ix])).await;
+            }
+        }
+        13 => { // C03 / C02: amounts where floor(share x remainder / 10 000) no longer fits a u64 product
+            let src = K::Ata(b(&g.buyer), b(&K::Mint));
+            s.op(Op::MintTo(src.clone(), 9_000_000_000_000_000_000)).await;
+            let e = open_epoch(&mut s, &mut g).await;
+            let debt = 4_000_000u64;
+            let t = s.def_tree(0, vec![Leaf::Debt { node: g.nodes[0].clone(), amount: debt }]);
+            let ix = s.rd_configure_debt(&g.debt_acc, e, 1, debt, t.root); s.op(tx(vec![ix])).await;
+            let ix = s.rd_finalize_debt(&g.debt_acc, e, &g.payer); s.op(tx(vec![ix])).await;
+            s.op(Op::Airdrop(K::RdDeposit(b(&g.nodes[0])), debt)).await;
+            let p = s.proof(&t, 0).unwrap(); let ix = s.rd_pay(e, &g.nodes[0].clone(), debt, &p); s.op(tx(vec![ix])).await;
+            let rl = vec![Leaf::Reward { contributor: g.svcs[0].clone(), unit_share: 600_000_000, packed: 0 },
+                          Leaf::Reward { contributor: g.svcs[2].clone(), unit_share: 400_000_000, packed: 1 }];
+            let rt = s.def_tree(1, rl.clone());
+            let ix = s.rd_configure_rewards(&g.rew_acc, e, 2, rt.root); s.op(tx(vec![ix])).await;
+            let _ = open_epoch(&mut s, &mut g).await;
+            let ix = s.rd_finalize_rewards(&g.payer, e); s.op(tx(vec![ix])).await;
+            let ix = s.sw_buy(&g.fills, &src, &g.buyer, &g.users[8], 8_000_000_000_000_000_000, debt); s.op(tx(vec![ix])).await;
+            let ix = s.rd_sweep(e, &K::SwapMock, &g.fills); s.op(tx(vec![ix])).await;
+            for (idx, l) in rl.iter().enumerate() {
+                let Leaf::Reward { contributor, unit_share, packed } = l.clone() else { unreachable!() };
+                let ci = g.svcs.iter().position(|x| *x == contributor).unwrap();
+                for (r, _) in g.recips[ci].clone() { s.reg_ata(&r); s.op(Op::CreateAta { payer: g.payer.clone(), owner: r }).await; }
+                let recs: Vec<K> = g.recips[ci].iter().map(|x| x.0.clone()).collect();
+                let p = s.proof(&rt, idx as u32).unwrap();
+                let ix = s.rd_distribute(e, &contributor, &g.relayer, &recs, unit_share, packed, &p); s.op(tx(vec![ix])).await;
             }
         }
         3 | _ => { // C05: malformed replies (no return data, wrong length, wrong SOL amount, honest amount)
